@@ -29,12 +29,12 @@ import (
 )
 
 type c10Fault struct {
-	At        int    `json:"at"`                  // arrival position whose Add is hit
-	Write     int    `json:"write"`               // 0: first write of Add (document, tx index), 1: second (event list, apply)
-	Mode      string `json:"mode"`                // "before": the write fails without running; "after-body": body ran, then rollback
-	Crash     bool   `json:"crash,omitempty"`     // the process dies after the failed Add: close + re-open (Configure)
-	Redeliver []int  `json:"redeliver"`           // the transaction is delivered again after this many further arrivals (one entry each)
-	Repeat    int    `json:"repeat,omitempty"`    // the first Repeat redeliveries are hit by the same fault again
+	At        int    `json:"at"`               // arrival position whose Add is hit
+	Write     int    `json:"write"`            // 0: first write of Add (document, tx index), 1: second (event list, apply)
+	Mode      string `json:"mode"`             // "before": the write fails without running; "after-body": body ran, then rollback
+	Crash     bool   `json:"crash,omitempty"`  // the process dies after the failed Add: close + re-open (Configure)
+	Redeliver []int  `json:"redeliver"`        // the transaction is delivered again after this many further arrivals (one entry each)
+	Repeat    int    `json:"repeat,omitempty"` // the first Repeat redeliveries are hit by the same fault again
 }
 
 type c10FaultCase struct {
